@@ -111,6 +111,15 @@ fn gen() -> Vec<Case> {
             out.push(Case { input: format!("{w} -print"), kw: None, word: w.clone(), family: "unknown-word" });
         }
     }
+    // a well-formed value of an option the target does not support: refused, and the message names
+    // the option and quotes the value as written
+    for kw in ["-maxdepth", "-mindepth"] {
+        for v in ["3", "0", "12", "4294967295", "007"] {
+            for (pre, suf) in [("", ""), ("", " -print"), ("-name a ", ""), ("-depth ", " -name b"), ("( -true ) ", "")] {
+                out.push(Case { input: format!("{pre}{kw} {v}{suf}"), kw: Some(kw), word: v.to_string(), family: "unsupported-option-value" });
+            }
+        }
+    }
     for w in ["foo", "-foo", "-bogus"] {
         out.push(Case { input: format!("( -true -o {w})"), kw: None, word: w.to_string(), family: "unknown-word" });
         out.push(Case { input: format!("({w})"), kw: None, word: w.to_string(), family: "unknown-word" });
